@@ -44,8 +44,12 @@ func c18Tags(t *rapid.T) map[string]string {
 
 // rebuilt returns an equal map built in another insertion order.
 func rebuilt(m map[string]string, rot int) map[string]string {
-	if m == nil {
-		return nil
+	if len(m) == 0 {
+		// "no tags" has two spellings, nil and an empty map: one identity
+		if rot%2 == 0 {
+			return nil
+		}
+		return map[string]string{}
 	}
 	keys := make([]string, 0, len(m))
 	for k := range m {
